@@ -252,11 +252,14 @@ def check_cursor_use(ctx, modules, floor=1, rule='R-CURSOR/used'):
 
 def check_tiles(ctx, modules, floor=1, rule='R-TILE/window'):
     """chunked loops tile their axis exactly (sa/rules/tiling.py)"""
-    from ..rules.tiling import check_tiling
+    from ..rules.tiling import (check_tiling, check_window_writes,
+                                check_whole_axis)
     n = 0
     for fi in ctx.db.iter_functions():
         if fi.module.short in modules:
             n += check_tiling(ctx, fi, rule)
+            check_window_writes(ctx, fi)
+            check_whole_axis(ctx, fi)
     if n < floor:
         raise AnalysisError(f'only {n} chunked loops found in {modules}')
 
